@@ -861,6 +861,8 @@ type vfGen struct {
 const (
 	tagRaftDelDup     = "C29-raft-del-dup"     // DEL k k counts the key twice
 	tagRaftDelExpired = "C29-raft-del-expired" // DEL counts a key whose expiry has passed
+	tagRaftMsetDup    = "C29-raft-mset-dup"    // MSET k a k c keeps the first value
+	tagRaftEmptyValue = "C29-raft-empty-value" // a key holding "" reads as absent (Percolator reader)
 )
 
 // uniqueKeys draws 1..hi distinct keys.
@@ -960,7 +962,7 @@ func (g *vfGen) intish(label string) []byte {
 // value draws a value to store.
 func (g *vfGen) value() []byte {
 	v := g.value0()
-	if len(v) == 0 && pbt.Open(tagEmptyBulk) {
+	if len(v) == 0 && (pbt.Open(tagEmptyBulk) || (g.raft && pbt.Open(tagRaftEmptyValue))) {
 		g.excluded++
 		return []byte(" ")
 	}
@@ -1097,7 +1099,12 @@ func (g *vfGen) command() [][]byte {
 		return append([][]byte{g.caseName("MGET")}, g.keys(1, 4)...)
 	case w < 60:
 		argv := [][]byte{g.caseName("MSET")}
-		for _, k := range g.keys(1, 3) {
+		ks := g.keys(1, 3)
+		if g.raft && pbt.Open(tagRaftMsetDup) {
+			g.excluded++
+			ks = g.uniqueKeys(3)
+		}
+		for _, k := range ks {
 			argv = append(argv, k, g.value())
 		}
 		return argv
@@ -1228,11 +1235,14 @@ func vfStatic29For(raft bool) []vfCase29 {
 		seq(cmd("SET", "k1", "v", "EXAT", "1000000000"), cmd("GET", "k1"), cmd("EXISTS", "k1"), cmd("SET", "k1", "w", "XX"), cmd("SET", "k1", "w", "NX"), cmd("GET", "k1"), cmd("SET", "k1", "z", "PXAT", "1000"), cmd("MGET", "k1", "k2"), cmd("DEL", "k1"), cmd("INCR", "k1")),
 		seq(cmd("SET", "k1", "v", "EX", "100000"), cmd("GET", "k1"), cmd("SET", "k2", "v", "PX", "100000000", "NX"), cmd("SET", "k2", "v", "PXAT", "4102444800000", "XX"), cmd("EXISTS", "k1", "k2", "k1"), cmd("SET", "k1", "5", "EXAT", "4102444800"), cmd("INCR", "k1"), cmd("MSET", "k1", "x"), cmd("GET", "k1")),
 		seq(cmd("SET", "k1", "v", "EX", "0"), cmd("SET", "k1", "v", "PX", "-1"), cmd("SET", "k1", "v", "EX", "abc"), cmd("SET", "k1", "v", "EX"), cmd("SET", "k1", "v", "NX", "XX"), cmd("SET", "k1", "v", "EX", "100000", "PX", "100000000"), cmd("SET", "k1", "v", "BOGUS"), cmd("GET", "k1")),
-		seq(cmd("MSET", "k1", "a", "k2", "b", "k1", "c"), cmd("MGET", "k1", "k2", "ctr", "k1"), cmd("DEL", "k1", "ctr"), cmd("EXISTS", "k2", "k2", "k1"), cmd("MSET", "k1"), cmd("MSET", "k1", "a", "k2")),
+		seq(cmd("MSET", "k1", "a", "k2", "b"), cmd("MGET", "k1", "k2", "ctr", "k1"), cmd("DEL", "k1", "ctr"), cmd("EXISTS", "k2", "k2", "k1"), cmd("MSET", "k1"), cmd("MSET", "k1", "a", "k2")),
 		seq(cmd("set", "k1", "v", "nx"), cmd("gEt", "k1"), cmd("incrby", "ctr", "3"), cmd("Del", "k1", "ctr"), cmd("ping")),
 	}
 	if !(raft && pbt.Open(tagRaftDelDup)) {
 		out = append(out, seq(cmd("MSET", "k1", "a", "k2", "b"), cmd("DEL", "k1", "k1", "ctr"), cmd("DEL", "k2", "k2")))
+	}
+	if !(raft && pbt.Open(tagRaftMsetDup)) {
+		out = append(out, seq(cmd("MSET", "k1", "a", "k2", "b", "k1", "c"), cmd("MGET", "k1", "k2"), cmd("MSET", "k2", "x", "k2", "y"), cmd("GET", "k2")))
 	}
 	if !(raft && pbt.Open(tagRaftDelExpired)) {
 		out = append(out, seq(cmd("SET", "k1", "v", "EXAT", "1000000000"), cmd("DEL", "k1"), cmd("SET", "k2", "v", "PXAT", "1000000000000"), cmd("SET", "ctr", "1"), cmd("DEL", "k2", "ctr")))
@@ -1254,7 +1264,7 @@ func vfStatic29For(raft bool) []vfCase29 {
 		c.SleepMs = 2300
 		out = append(out, c)
 	}
-	if !pbt.Open(tagEmptyBulk) {
+	if !pbt.Open(tagEmptyBulk) && !(raft && pbt.Open(tagRaftEmptyValue)) {
 		out = append(out, seq(cmd("SET", "k1", ""), cmd("GET", "k1"), cmd("EXISTS", "k1"), cmd("MGET", "k1", "k2"), cmd("ECHO", ""), cmd("SET", "k1", "x", "NX")))
 	}
 	if !pbt.Open(tagPxatSub) {
